@@ -16,7 +16,7 @@ def obligations(tier):
     if tier == 'thorough':
         obls += [vr_obl(0, sl, difbits=34, timeout=1800, tiers=('thorough',)) for sl in ('7', '1000')]
     obls += [vr_obl(4, sl) for sl in ('7', '1000')]      # vr_set_io_ratio while a cross-fade is running: both streams slew to the same ratio
-    obls += [vr_switch_obl(0), vr_switch_obl(1), vr_switch_obl(2), vr_switch_obl(3)]      # the stage-switch block of the real vr_process, both directions across ratio 1
+    obls += [vr_switch_obl(0), vr_switch_obl(1), vr_switch_obl(2), vr_switch_obl(3), vr_snap_obl(1), vr_snap_obl(0)]      # the stage-switch block of the real vr_process, both directions across ratio 1
     for kind in (8, 2, 3):
         obls.append(api_step(4, 0, 0, kind, 2))
     obls.append(lsr_obl(0, 8, 2, '2.0'))
